@@ -135,11 +135,14 @@ impl Rig {
 
 /// Outcome codes of a client run: 10 = repository reported updated (RRDP
 /// repository returned), 11 = not updated, 12 = run failed, 101 = panic.
-fn run_code(rig: &Rig) -> i32 {
+fn run_code(rig: &Rig) -> i32 { run_code_status(rig).0 }
+
+/// The outcome code and the HTTP status the notification request got (304 = not modified).
+fn run_code_status(rig: &Rig) -> (i32, i16) {
     match crate::common::catch(std::panic::AssertUnwindSafe(|| client_run(&rig.collector, &rig.ca, &rig.srv, &[]))) {
-        Ok(Ok(obs)) => if obs.updated { 10 } else { 11 },
-        Ok(Err(_)) => 12,
-        Err(_) => 101,
+        Ok(Ok(obs)) => (if obs.updated { 10 } else { 11 }, obs.notify_status),
+        Ok(Err(_)) => (12, 0),
+        Err(_) => (101, 0),
     }
 }
 
@@ -152,6 +155,11 @@ fn load_run_cache(rig: &Rig, from: &Path) {
 fn client_here(rig: &Rig, from: &Path) -> i32 {
     load_run_cache(rig, from);
     run_code(rig)
+}
+
+fn client_here_status(rig: &Rig, from: &Path) -> (i32, i16) {
+    load_run_cache(rig, from);
+    run_code_status(rig)
 }
 
 /// The same run in a forked child that kills itself at its k-th kill point.
@@ -351,7 +359,7 @@ fn one(rep: &mut Report, rig: &Rig, b: &Value, idx: usize, args: &Args, rng: &mu
         rep.divergence(C24, format!("scenario {idx}: the uninterrupted run did not report updated (code {code}); the model says it does"));
         return
     }
-    judge_reported(rep, &sc, &ctx0, "uninterrupted", &dref, &lref, target, vers);
+    judge_reported(rep, &sc, &ctx0, "uninterrupted", &dref, &lref, false);
     if Some(&dref) != model.last() {
         rep.divergence(C24, format!("scenario {idx}: final state {:?} differs from the model's {:?}", dref, model.last()));
     }
@@ -447,24 +455,26 @@ fn one(rep: &mut Report, rig: &Rig, b: &Value, idx: usize, args: &Args, rng: &mu
     let _ = std::fs::remove_dir_all(&caches);
 }
 
-/// The C24 oracle for a run that reported the repository as updated.
+/// The C24 oracle for a run that reported the repository as updated (or, after a 304, as current):
+/// the archive's state names a version the server published and its objects are exactly that version's;
+/// and that version is the announced one, unless the notification request was answered 304 (a cache
+/// presenting an older notification to a client that is ahead).
 fn judge_reported(rep: &mut Report, sc: &Scenario, ctx: &Value, what: &str, d: &Disk, local: &Option<LocalCopy>,
-                  announced: usize, vers: &[Value]) {
+                  not_modified: bool) {
     let srv = &sc.rig.srv;
     let (_, cur_session, cur_serial) = srv.current().expect("announced version");
-    let _ = (announced, vers);
     match local {
         None => rep.violation(C24, &format!("reported-without-copy/{what}"),
             format!("the run ({what}) reported the repository as updated but the archive is {:?}", d), ctx.clone(), json!({"disk": d.to_json()})),
         Some(l) => {
-            let want = srv.objects_at(cur_session, cur_serial);
-            let state_ok = l.session == cur_session && l.serial == cur_serial;
+            let want = srv.objects_at(l.session, l.serial);
+            let state_ok = (l.session == cur_session && l.serial == cur_serial) || (not_modified && !want.is_empty());
             let content_ok = want.iter().any(|w| *w == l.objects);
             if !state_ok || !content_ok {
                 rep.violation(C24, &format!("reported-updated-divergent/{what}"),
-                    format!("the run ({what}) reported the repository as updated; archive state (session {}, serial {}) vs announced (session {}, serial {}); content equal to the server's snapshot: {}",
-                        l.session, l.serial, cur_session, cur_serial, content_ok),
-                    ctx.clone(), json!({"disk": d.to_json(), "announced_serial": cur_serial}));
+                    format!("the run ({what}) reported the repository as {}; archive state (session {}, serial {}) vs announced (session {}, serial {}); content equal to the server's snapshot at the archive's serial: {}",
+                        if not_modified { "current (304)" } else { "updated" }, l.session, l.serial, cur_session, cur_serial, content_ok),
+                    ctx.clone(), json!({"disk": d.to_json(), "announced_serial": cur_serial, "not_modified": not_modified}));
             }
         }
     }
@@ -482,14 +492,21 @@ fn follow_ups(rep: &mut Report, sc: &Scenario, ctx: &Value, crashed: &Path, cach
     next[0] = match next[0] { 1 => 2, _ => 1 };
     let n = next.len();
     if n > 1 { next[n - 1] = if next[n - 1] == 0 { 1 } else { 0 }; }
-    let kinds: &[&str] = if args.thorough() { &["same", "next", "newsess", "kill-again"] } else { &["same", "next", "newsess"] };
-    for kind in kinds {
+    let base_ver = ctx["base"].as_u64().unwrap_or(0) as usize;
+    let mut kinds: Vec<&str> = vec!["same", "next", "newsess"];
+    if base_ver > 0 { kinds.push("stale-cache"); kinds.push("stale-cache/no-etag"); }
+    if args.thorough() { kinds.push("kill-again"); }
+    for kind in kinds.iter() {
         srv.announce(idx_of[target - 1]);
+        srv.set_validators(true, true);
         let mut added = false;
         let mut from = crashed.to_path_buf();
         match *kind {
             "next" => { srv.publish(objects_of(&base_uri, &json!(next))); added = true; }
             "newsess" => { srv.new_session(target as u64 + 1, objects_of(&base_uri, &json!(next))); added = true; }
+            // a cache presents the notification of the version the client was synced to once more
+            "stale-cache" => { srv.announce(idx_of[base_ver - 1]); }
+            "stale-cache/no-etag" => { srv.announce(idx_of[base_ver - 1]); srv.set_validators(false, true); }
             "kill-again" => {
                 // a second kill somewhere in the recovery run, then another run
                 let snaps2 = caches.join("snaps2");
@@ -501,13 +518,14 @@ fn follow_ups(rep: &mut Report, sc: &Scenario, ctx: &Value, crashed: &Path, cach
             }
             _ => {}
         }
-        let code = client_here(rig, &from);
+        let (code, nstatus) = client_here_status(rig, &from);
         rep.eval(C24);
         let (d, l) = sc.classify(&rig.run_cache);
         let mut c = ctx.clone();
         c["follow_up"] = json!(kind);
+        if nstatus == 304 { rep.add_note(C24, "follow_ups_answered_304", 1); }
         match code {
-            10 => judge_reported(rep, sc, &c, kind, &d, &l, target, vers),
+            10 => judge_reported(rep, sc, &c, kind, &d, &l, nstatus == 304),
             11 => {
                 // not reported updated: allowed by C24, but the model says an honest, reachable server is always synced
                 rep.add_note(C24, "follow_up_not_updated", 1);
@@ -527,6 +545,8 @@ fn follow_ups(rep: &mut Report, sc: &Scenario, ctx: &Value, crashed: &Path, cach
         }
         if *kind == "kill-again" { let _ = std::fs::remove_dir_all(caches.join("snaps2")); }
     }
+    srv.set_validators(true, true);
+    srv.announce(idx_of[target - 1]);
 }
 
 pub fn main(args: &Args) -> i32 {
